@@ -564,6 +564,7 @@ package core
 //@   opt nopanic=off
 //@   ensures sorted [C07]: forall i int :: 0 < i && i < len(result) ==> result[i-1] <= result[i]
 //@ func (BuildTarget).IsTest
+//@   property C33 C36
 //@   requires target != nil
 //@   modifies nothing
 //@   ensures exact: result == (target.Test != nil)
